@@ -293,7 +293,7 @@ func TestVerifC19(t *testing.T) {
 
 	depth := vlib.Pick(r, 5, 6)
 	maxblocks := vlib.Pick(r, 4, 5)
-	shareddepth := vlib.Pick(r, 4, 5)
+	shareddepth := vlib.Pick(r, 3, 5)
 
 	r.Rule("BFS over event histories (alphabet: write+commit the next block of kind S/F/P/O - genesis G first -, abandoned block write U, mergePermanent m, MergeAllPermanent M, RemoveBlocks(h) for every h from one below the lowest temp to one above the last block, cleanRemoved(0) c) " +
 		"to the stated depth with at most the stated number of committed blocks, once without state caches and a permanent batch limit of 2, once with a permanent state cache (16) and block writers whose cache (1) is smaller than their blocks and a batch limit of 3 (thorough: also both with the default limit 333 and writer caches of 16); a state is the committed chain (block ids) + how many blocks are in the permanent database + temps waiting for cleanup + prefix storages of the block-write area + predicted permanent state cache + per-height write counters; " +
